@@ -53,6 +53,7 @@ inductive HopKind where
   | hole
   | nat (ext : String)
   | dropper (di : Nat)
+  | delayer (yi : Nat)
   | echo (route : List String) (ty : PType) (len ovh : Nat)
   deriving Repr
 
@@ -65,6 +66,26 @@ structure DInst where
   which : List Nat
   seen  : Nat := 0
 
+/-- a scripted delayer (`hop <name> delayer delay=<i>:<ns>,…`): the droppable packets whose ordinal
+    (0-based, among the droppable packets it sees — the dropper's rule) is in the table are held -/
+structure YInst where
+  table : List (Nat × Int)
+  seen  : Nat := 0
+
+/-- ids reserved for the delayers' internal objects: every held packet has its own timer object
+    (kernel timer `yTimer slot`) whose wait completes with kernel handler `yHandler slot` -/
+def yTimer (slot : Nat) : Nat := 100000 + slot
+def yHandler (slot : Nat) : Nat := 4000000 + slot
+
+/-- `delay=<i>:<ns>,<j>:<ns>` -/
+def parseDelays (l : String) : List (Nat × Int) :=
+  (((l.splitOn ",").filter (· ≠ ""))).filterMap (fun e =>
+    match e.splitOn ":" with
+    | [a, b] => match a.toNat?, b.toInt? with
+      | some i, some d => some (i, d)
+      | _, _ => none
+    | _ => none)
+
 /-- ids reserved for the queues' internal objects in the kernel model -/
 def qTimer (qi : Nat) : Nat := 1000 + qi
 def qHandler (qi : Nat) (cb : Cb) : Nat := 1000000 + 2 * qi + (match cb with | .begin => 0 | .sent => 1)
@@ -74,6 +95,9 @@ structure KSt where
   hops : List (String × HopKind) := []
   qs   : List QInst := []
   ds   : List DInst := []
+  ys   : List YInst := []
+  held : List (Nat × Pkt) := []                -- packets held by delayers: slot ↦ packet (its own hop popped)
+  nheld : Nat := 0                             -- slots handed out so far
   net  : NetSt := {}                           -- sockets, registries, channels, forwarders
   tp   : TParams := {}
   compl : List (Nat × Ec × String) := []       -- posted user completions: handler ↦ (ec, text after it)
@@ -136,6 +160,9 @@ def KSt.declare (s : KSt) (decl : List (List String)) : KSt :=
     | "hop" :: name :: "dropper" :: args =>
       let which := (splitCommas ((findKv? args "drop").getD "")).filterMap String.toNat?
       { s with hops := s.hops ++ [(name, .dropper s.ds.length)], ds := s.ds ++ [{ which := which }] }
+    | "hop" :: name :: "delayer" :: args =>
+      { s with hops := s.hops ++ [(name, .delayer s.ys.length)],
+               ys := s.ys ++ [{ table := parseDelays ((findKv? args "delay").getD "") }] }
     | "hop" :: name :: "echo" :: args =>
       { s with hops := s.hops ++ [(name, .echo (splitCommas ((findKv? args "route").getD ""))
           (((findKv? args "type").bind PType.ofString).getD .ack) ((findNat? args "len").getD 0) ((findNat? args "ovh").getD 20))] }
@@ -293,6 +320,22 @@ def forwardPkt (p : KParams) : Nat → Pkt → KSt → KSt
             if d.which.contains d.seen then dropNotify s name pk
             else forwardPkt p f pk s
           else forwardPkt p f pk s
+      | some (.delayer yi) =>
+        match s.ys[yi]? with
+        | none => { s with bad := true }
+        | some y =>
+          if pk.okToDrop then
+            let s := { s with ys := s.ys.mapIdx (fun i x => if i = yi then { x with seen := x.seen + 1 } else x) }
+            match y.table.lookup y.seen with
+            | some d =>
+              -- held: a fresh timer object, `expires_after(d)` then `async_wait`
+              let s := s.emit (describePkt "Y" name s.k.now pk pk.hasDrop ++ " hold=" ++ toString d)
+              let slot := s.nheld
+              let s := { s with held := s.held ++ [(slot, pk)], nheld := slot + 1 }
+              let k := step p s.k (.expiresAfter (yTimer slot) d)
+              { s with k := step p k (.wait (yTimer slot) (yHandler slot)) }
+            | none => forwardPkt p f pk s
+          else forwardPkt p f pk s
       | some (.queue qi) =>
         match s.qs[qi]? with
         | none => { s with bad := true }
@@ -418,6 +461,16 @@ def runQueueCb (p : KParams) (h : Nat) (s : KSt) : KSt :=
         | some qinst2 =>
           let r := qinst2.q.sentFinish qinst2.cfg s.k.now
           applyQEffs p qi r.2 (s.setQ qi r.1)
+
+/-- The hold timer of a delayer's packet completed: the packet goes on along the rest of its
+    route. A cancelled wait (the catch-all of `run()` cancels every timer) discards it. -/
+def runDelayerCb (p : KParams) (h : Nat) (ec : Ec) (s : KSt) : KSt :=
+  let slot := h - 4000000
+  match s.held.lookup slot with
+  | none => s
+  | some pk =>
+    let s := { s with held := s.held.filter (·.1 != slot) }
+    if ec == Ec.aborted then s else forwardPkt p netFuel pk s
 
 def doInject (p : KParams) (ctx : String) (op : List String) (s : KSt) : KSt :=
   let args := op.drop 1
@@ -893,7 +946,8 @@ def pollLoop (p : KParams) (scn : Scn) (hk : Hooks) : Nat → KSt → Nat → KS
     | t :: _ =>
       let s := { s with k := step p s.k .exec }
       let s :=
-        if t.h ≥ 3000000 then
+        if t.h ≥ 4000000 then runDelayerCb p t.h t.ec s     -- a delayer's hold timer
+        else if t.h ≥ 3000000 then
           -- a completion belonging to an application-level component
           let (ec, extra) := match s.compl.lookup t.h with
             | some (e, x) => (e, x)
